@@ -13,5 +13,5 @@ void reset() {
 int clean_up(int inh) {
   vlog("\"e\":\"CleanUp\",\"ob\":" + jq(me()));
   if (scripts["cleanup"]) do_ops(scripts["cleanup"], "clean_up");
-  return 1;
+  return scripts["curet0"] ? 0 : 1;     // answering 0: never ask again
 }
